@@ -138,6 +138,10 @@ impl<'a> Chk<'a> {
             Ok(Ok((true, 0))) => {}
             other => return bad(self.ctx, "decode-exact", format!("{other:?}")),
         }
+        if expected.len() > 40 && expected.len() < 140 && crate::rng::fnv(expected) % 4001 == 7 {
+            let hex: String = expected.iter().map(|b| format!("{b:02x}")).collect();
+            self.ctx.sample(|| json!({"type":name,"value":format!("{v:?}").chars().take(300).collect::<String>(),"bytes":hex,"encoded_size":size,"prefixes_checked":expected.len()}));
+        }
         // every strict prefix errors
         for cut in 0..expected.len() {
             self.ctx.count("prefixes_decoded");
@@ -412,9 +416,6 @@ fn run_case(ctx: &mut Ctx, id: u64) {
                 do_du(&mut c, a, b, ns, ad, sg)
             }
         }
-    }
-    if id % 997 == 0 {
-        c.ctx.sample(|| json!({"kind":"random-values","count":rounds}));
     }
     // a node whose hash is not 32 bytes cannot be encoded: must be an error, not a panic
     let bad = Node::new(1, vec![1, 2, 3], 4);
